@@ -35,6 +35,35 @@ func findPrefixLoops(fn *ssa.Function) []prefixLoop {
 		if !ok || sl.High == nil {
 			return
 		}
+		// `for i := range b { … b[:i+1] … }`: every prefix from one byte to the whole input
+		if add, isAdd := sl.High.(*ssa.BinOp); isAdd && add.Op == token.ADD {
+			if k, isK := constInt(add.Y); isK && k == 1 {
+				if idx, isIdx := add.X.(*ssa.BinOp); isIdx && isRangeIndex(idx) {
+					over := false
+					for _, r := range referrers(idx) {
+						if cmp, isCmp := r.(*ssa.BinOp); isCmp && cmp.Op == token.LSS && cmp.X == ssa.Value(idx) {
+							if call, isCall := cmp.Y.(*ssa.Call); isCall {
+								if b, isB := call.Call.Value.(*ssa.Builtin); isB && b.Name() == "len" && call.Call.Args[0] == sl.X {
+									over = true
+								}
+							}
+						}
+					}
+					if over {
+						pl := prefixLoop{call: in, found: true, inclusive: true, cmp: "i+1 for i in range b"}
+						if v, isV := in.(ssa.Value); isV {
+							for _, r := range referrers(v) {
+								if ex, isEx := r.(*ssa.Extract); isEx && ex.Index == 1 {
+									pl.nSrc = ex
+								}
+							}
+						}
+						out = append(out, pl)
+						return
+					}
+				}
+			}
+		}
 		phi, ok := sl.High.(*ssa.Phi)
 		if !ok {
 			return
@@ -271,6 +300,29 @@ func checkC11(c *Ctx) {
 				}
 			}
 		}
+		// … or a loop counting up to nSrc (`for i := 0; i < nSrc; i++ { ReadByte }`)
+		if pl.nSrc != nil && !ok {
+			for _, r := range referrers(pl.nSrc) {
+				if bo, isBO := r.(*ssa.BinOp); isBO && bo.Op == token.LSS && bo.Y == ssa.Value(pl.nSrc) {
+					if phi, isPhi := bo.X.(*ssa.Phi); isPhi && len(phi.Edges) == 2 {
+						zero, step := false, false
+						for _, e := range phi.Edges {
+							if k, isK := constInt(e); isK && k == 0 {
+								zero = true
+							}
+							if add, isAdd := e.(*ssa.BinOp); isAdd && add.Op == token.ADD && add.X == ssa.Value(phi) {
+								if k, isK := constInt(add.Y); isK && k == 1 {
+									step = true
+								}
+							}
+						}
+						if zero && step {
+							ok = true
+						}
+					}
+				}
+			}
+		}
 		nread := len(callsIn(pr, func(n string, _ *ssa.CallCommon) bool { return n == "(*bytes.Buffer).ReadByte" }))
 		// or in one step: buf.Next(nSrc)
 		viaNext := false
@@ -411,16 +463,14 @@ func collectLoopFn(p *Prog) *ssa.Function {
 		}
 		n := 0
 		seen := map[string]bool{}
-		for _, call := range callsIn(fn, func(nm string, cc *ssa.CallCommon) bool {
-			f := staticCallee(cc)
-			return f != nil && isParserSig(f)
-		}) {
-			nm := calleeName(callCommon(call))
-			if !seen[nm] {
-				seen[nm] = true
-				n++
+		eachInstr(fn, func(in ssa.Instruction) {
+			for _, f := range calleesAt(in) {
+				if isParserSig(f) && !seen[f.String()] {
+					seen[f.String()] = true
+					n++
+				}
 			}
-		}
+		})
 		if n >= 3 {
 			best = fn
 		}
